@@ -76,3 +76,22 @@ def register(claim):
           "Bounds of unknown coalitions are compared only after being written through a bound setter; a false "
           "precondition may be rejected (table unchanged) or accepted (then it must act as set / unset).",
           "DESIGN.md section 5, C17")
+    claim("C09", "exploration",
+          f"{SIM}: one long-lived environment driven by interleaved clients (agent reset/step/unstep in any order, "
+          "the four solvers probing, calls torn by a simulated KeyboardInterrupt + reset recovery) against a "
+          "reference model of (hidden games drawn, revealed set, counter)",
+          "After every returned call every clause of the statement is evaluated against the reference model: known "
+          "set and values, mask, observation (also against an independent normalisation when well conditioned), "
+          "reward bit-exact against freshly recomputed bounds, info, the done predicate, and reset semantics; hidden "
+          "games come from harness constructions, registered families and the CLI's ModelInstance.get_env path.",
+          "n = 3..5; float-additive hidden games are excluded from the independent-normalisation comparison only; "
+          "after a torn call only the post-reset state is judged.",
+          "DESIGN.md section 5, C09")
+    claim("C07", "exploration",
+          f"{SIM}: seeded reveal histories through env.step and reveal_value+compute with probes, torn steps "
+          "(reset-free recovery) and memo evictions between reveals; before/after invariants per reveal",
+          "Along every simulated reveal history to full knowledge, interval monotonicity (exact on exact games) and, "
+          "for all four registered gap functions, non-increase, non-negativity and zero at full knowledge are "
+          "checked per reveal; each registered norm is also compared with its defining formula.",
+          "Class-matched pairs only (premise re-checked independently); exploitability tolerance 1e-9*scale*2^n.",
+          "DESIGN.md section 5, C07")
